@@ -138,6 +138,8 @@ def partA_cases(thorough):
     cases = []
 
     def add(decl, value, notations=None):
+        if notations is None and not thorough and decl in ("Holder", "Deep", "Multi"):
+            notations = ("obj", "json", "short", "dotted", "dotted-ia", "ia-default")  # quick tier: 6 of the 11 notations on nested families
         cases.append({"part": "A", "decl": decl, "value": value, "id": G.short_key(f"A:{decl}:{G.label(value)}"), "notations": notations})
 
     flat = flat_specs(thorough)
@@ -213,6 +215,7 @@ def partA_cases(thorough):
     # two levels: Deep
     holders = [S("Holder", child=S("Base", a=5)), S("Holder", child=S("SubAdd", b=2), opt=S("SubOver", a="w"), n=2),
                S("HolderSub", child=S("SubReq", r=3), extra=S("Unrelated", u=3)), S("HolderSub", child=S("SubKw", kw={"q": 4}, a=5), opt=None)]
+    holders.append(S("Holder", child=S("Base"), opt=None))
     for hi, hold in enumerate(holders):
         add("Deep", S("Deep", holder=hold))
         add("Deep", S("Deep", holder=hold, tag="hello"))
@@ -233,7 +236,7 @@ def partA_cases(thorough):
         for bi, byname in enumerate(bynames):
             for ei, either in enumerate(eithers):
                 n += 1
-                if not thorough and n % 4 != 1 and not (mi == 0 and bi == 0) and not (mi == 0 and ei == 0) and not (bi == 0 and ei == 0):
+                if not thorough and n % 6 != 1 and not (mi == 0 and bi == 0) and not (mi == 0 and ei == 0) and not (bi == 0 and ei == 0):
                     continue
                 args = {}
                 if many != "absent":
@@ -326,6 +329,8 @@ def built_problems(res, log, want_cfg):
     made = G.constructions(log)
     if made != nc + nf:  # every factory of the family builds exactly one object
         problems.append(("x", "extra", f"{made} objects constructed, configuration names {nc} classes and {nf} factories"))
+    if G.factory_calls(log) != nf:
+        problems.append(("x", "once", f"{G.factory_calls(log)} factory calls, configuration names {nf} factories"))
     return problems
 
 
@@ -360,7 +365,7 @@ def run_partA(case):
             if nname not in ("obj", "json", "dotted"):
                 continue
             ev.append(("check", res[0] != "ok", K("accepted-null-for-non-optional-init_arg", key),
-                       "null was accepted for a parameter whose type does not allow None" + (f"; instantiate_classes -> {instantiate(parser, res[1])[0][:2]}" if res[0] == "ok" else ""), info))
+                       "null was accepted for a parameter whose type does not allow None" + (f"; instantiate_classes -> {instantiate(parser, res[1])[0][0]}" if res[0] == "ok" else ""), info))
             ev.append(("nt", ("A", "invalid", lab, nname)))
             continue
         if ok is False:
@@ -376,7 +381,8 @@ def run_partA(case):
                 ev.append(("note", "unasserted: dict_kwargs for a class without **kwargs / naming a declared parameter: parse rejected"))
             continue
         if res[0] != "ok":
-            ev.append(("check", False, K("valid-rejected", key), f"a valid configuration was rejected: {res[1:]}"[:400], info))
+            clause = "dotted-null-below-first-level-rejected" if nname.startswith("dotted") and deep_none(value) else "valid-rejected"
+            ev.append(("check", False, K(clause, key), f"a valid configuration was rejected: {res[1:]}"[:400], info))
             continue
         accepted += 1
         got = G.plain(res[1]).get("x")
@@ -401,6 +407,17 @@ def run_partA(case):
     if ok is True and accepted and len(ev) < 400:
         ev.append(("sample", {"decl": decl, "value": G.label(value), "notations_accepted": accepted}))
     return ev
+
+
+def deep_none(value, depth=0):
+    """None as an argument of a class that is itself an argument of a class (written `--x.p.q=null` in dotted notation)."""
+    if isinstance(value, dict) and "cls" in value:
+        for v in value.get("args", {}).values():
+            if v is None and depth >= 1:
+                return True
+            if deep_none(v, depth + 1):
+                return True
+    return False
 
 
 def _same_types(a, b):
@@ -429,6 +446,8 @@ ARGS2 = {
     "SubKw": [{}, {"kw": {"z": 1}}],
     "Unrelated": [{}, {"u": -3}],
 }
+# arguments given with the second class that are NOT valid for it (parameter of a sibling / required one missing)
+ARGS2_BAD = {"Base": {"b": 2}, "SubAdd": {"c": True}, "SubOver": {"s": "late"}, "SubReq": {"a": -3}, "SubKw": {"s": "late"}, "Unrelated": {"s": "late"}}
 CHANNEL_SEQS = [("default", "dotted"), ("default", "json"), ("default", "cfg"), ("env", "dotted"), ("env", "cfg"), ("cfg", "cfg"), ("cfg", "dotted"), ("cfg", "json"),
                 ("dotted", "dotted"), ("json", "json"), ("dotted", "json"), ("json", "dotted")]
 
@@ -452,9 +471,9 @@ def partB_cases(thorough):
             if c1 == c2 == "Unrelated":
                 continue
             for i1, a1 in enumerate(ARGS1[c1]):
-                for i2, a2 in enumerate(ARGS2[c2]):
+                for i2, a2 in enumerate(ARGS2[c2] + [ARGS2_BAD[c2]]):
                     for ci, chans in enumerate(CHANNEL_SEQS):
-                        if not thorough and (i1 + i2 + ci) % 3 and not (c1 == "SubKw" and i1 == 0 and i2 == 0):
+                        if not thorough and (i1 + i2 + ci) % 4 and not (c1 == "SubKw" and i1 == 0 and i2 == 0):
                             continue
                         add(decl, [step(chans[0], c1, a1), step(chans[1], c2, a2)], f"{c1}>{c2}")
     # three steps: A -> B -> A again, and arguments given without naming the class after a change
@@ -543,13 +562,19 @@ def run_partB(case):
             os.environ.pop("J14_X", None)
         else:
             os.environ["J14_X"] = saved
-    # reference: the final class, the epoch of the last class change, what was given since
-    current, epoch = None, 0
-    for i, s in enumerate(steps):
-        if s["cls"] and s["cls"] != current:
-            current, epoch = s["cls"], i
-    final = current
+    # reference: the class in force at every step, the epoch of the last class change, what was given since
+    force, cur = [], None
+    for s in steps:
+        cur = s["cls"] or cur
+        force.append(cur)
+    epoch = max([0] + [i for i in range(1, len(steps)) if force[i] != force[i - 1]])
+    final = force[-1]
     model = G.MODEL[final]
+
+    def step_valid(i):
+        params = G.MODEL[force[i]]["params"]
+        return all(k in params and G.valid(params[k], v) is True for k, v in steps[i]["args"].items())
+
     since_args, since_kw_merge, since_kw_last = {}, {}, {}
     for s in steps[epoch:]:
         since_args.update(s["args"])
@@ -564,19 +589,35 @@ def run_partB(case):
             for k, kpd in G.MODEL[s["cls"]]["params"].items():
                 if kpd["default"] != G.REQUIRED:
                     given.setdefault(k, []).extend(candidates(kpd["default"]))
-    all_valid_since = all(k in model["params"] and G.valid(model["params"][k], v) for k, v in since_args.items())
-    required_ok = all(pd["default"] != G.REQUIRED or k in since_args for k, pd in model["params"].items())
+    all_valid_since = all(step_valid(i) for i in range(epoch, len(steps)))
+    all_valid_before = all(step_valid(i) for i in range(epoch))
+    required = [k for k, pd in model["params"].items() if pd["default"] == G.REQUIRED]
+    required_since = all(k in since_args for k in required)
+    required_ever = all(any(k in s["args"] for s in steps) for k in required)
+    if not all_valid_since or not required_ever:
+        verdict = "reject"  # an argument that is not valid for the class in force, or a required one never given
+    elif required_since and all_valid_before:
+        verdict = "accept"
+    else:
+        # a required argument given only before the class change (carried over or not), or an argument that was not
+        # valid for an earlier class in force (rejected on the spot or dropped by the change): the statement fixes neither
+        verdict = "either"
     if res[0] != "ok":
         info["result"] = res[:3]
-        steps_valid = all(s["cls"] is None or all(k in G.MODEL[s["cls"]]["params"] for k in s["args"]) for s in steps)
-        if all_valid_since and required_ok and steps_valid:
+        if verdict == "accept":
             ev.append(("check", False, K("seq-rejected", lab), f"every step is valid and the final class has all it needs, yet parsing failed: {res[1:]}"[:400], info))
         else:
+            if verdict == "reject":
+                ev.append(("check", True, K("accepted-invalid", lab), "", None))
             ev.append(("nt", ("B", "rejected", lab)))
+        return ev
+    if verdict == "reject":
+        info["result"] = G.plain(res[1]).get("x")
+        ev.append(("check", False, K("accepted-invalid", lab), f"arguments {since_args} given with/after the last class change are not valid for {final}, yet the sequence was accepted", info))
         return ev
     got = G.plain(res[1]).get("x")
     info["result"] = got
-    changed = len({s["cls"] for s in steps if s["cls"]}) > 1
+    changed = len(set(force)) > 1
     ev.append(("nt", ("B", "accepted", lab)))
     ok = isinstance(got, dict) and got.get("class_path") == G.IMPORTS[final][0]
     ev.append(("check", ok, K("final-class", lab), f"the configuration does not name the last class {final}", info))
@@ -593,17 +634,22 @@ def run_partB(case):
     nowhere = {k: v for k, v in init.items() if k in model["params"] and v != model["params"][k]["default"] and v not in given.get(k, [])}
     ev.append(("check", not nowhere, K("provenance", lab), f"values that were never configured and are not defaults: {nowhere}", info))
     kw = got.get("dict_kwargs") or {}
-    kw_ok = kw in (since_kw_merge, since_kw_last)
-    stale = not kw_ok and changed and all(k in {k2 for s in steps[:epoch] for k2 in s["kw"]} for k in kw if k not in since_kw_merge)
+    # dict_kwargs must have been configured for the final class (in any step where that class was in force)
+    for_final = {}
+    for i, s in enumerate(steps):
+        if force[i] == final:
+            for_final.update(s["kw"])
+    kw_ok = all(k in for_final and for_final[k] == v for k, v in kw.items()) and all(k in kw for k in since_kw_last)
+    stale = not kw_ok and changed and all(k in {k2 for s in steps[:epoch] for k2 in s["kw"]} for k in kw if k not in for_final)
     r2, log = instantiate(parser, res[1])
     if stale:
-        prev = [s["cls"] for s in steps[:epoch] if s["cls"]][-1]
+        prev = [force[i] for i in range(epoch) if any(k in steps[i]["kw"] for k in kw if k not in for_final)][-1]
         chans = "+".join(s["ch"] for s in steps)
         ev.append(("check", False, f"c14:class-change:stale-dict_kwargs:{prev}>{final}:first-given-by-{steps[0]['ch']}",
                    f"dict_kwargs {kw} given for {prev} survive the change to {final} (channels {chans}; configured since the change: {since_kw_merge}); "
                    f"instantiate_classes -> {r2[:3] if r2[0] != 'ok' else 'ok'}"[:500], info))
         return ev
-    ev.append(("check", kw_ok, K("dict_kwargs", lab), f"dict_kwargs {kw} are not the ones configured for the final class {since_kw_merge}", info))
+    ev.append(("check", kw_ok, K("dict_kwargs", lab), f"dict_kwargs {kw} are not the ones configured for the final class {for_final}", info))
     if model.get("abstract"):
         return ev
     if kw and not model.get("kw"):
@@ -626,7 +672,7 @@ def run_partC(case):
         for decl, expect_ok in (("Base", None), ("Unrelated", False), ("AbsBase", False)):
             parser = make_parser(decl)
             res = outcome(parser.parse_args, ["--x=" + G.path("BASE_INSTANCE")])
-            info = {"parser": summary(decl), "input": ["--x=" + G.path("BASE_INSTANCE")], "result": res[:2] if res[0] != "ok" else repr(res[1].x)}
+            info = {"parser": summary(decl), "input": ["--x=" + G.path("BASE_INSTANCE")], "result": res[:2] if res[0] != "ok" else "instance of " + type(res[1].x).__name__}
             if expect_ok is False:
                 ev.append(("check", res[0] != "ok", K("accepted-invalid", f"{lab}:{decl}"), "an import path of an instance of a foreign class was accepted", info))
             elif res[0] == "ok":
@@ -675,7 +721,7 @@ def partC_cases(thorough):
     add("Holder", ["--x=" + J(hs), "--x.child=SubOver"], S("HolderSub", extra=S("Unrelated", u=3), child=S("SubOver"), n=2), "child:SubAdd>SubOver")
     add("Holder", ["--x=" + J(hs), "--x.child=SubOver", "--x.child.c=true"], S("HolderSub", extra=S("Unrelated", u=3), child=S("SubOver", c=True), n=2), "child:SubAdd>SubOver+c")
     add("Holder", ["--x=" + J(hs), "--x.child=SubReq"], None, "child:SubAdd>SubReq-missing-r")
-    add("Holder", ["--x=" + J(hs), "--x.child=SubReq", "--x.child.r=3"], S("HolderSub", extra=S("Unrelated", u=3), child=S("SubReq", r=3, a=1), n=2), "child:SubAdd>SubReq+r")
+    add("Holder", ["--x=" + J(hs), "--x.child=SubReq", "--x.child.r=3", "--x.child.a=5"], S("HolderSub", extra=S("Unrelated", u=3), child=S("SubReq", r=3, a=5), n=2), "child:SubAdd>SubReq+r+a")
     add("Holder", ["--x=" + J(hs), "--x.child=" + G.path("Unrelated")], None, "child:SubAdd>Unrelated")
     add("Holder", ["--x=" + J(hs), "--x.extra=Base"], None, "extra:Unrelated>Base")
     add("Holder", ["--x=" + J(hs), "--x=Holder", "--x.extra=Unrelated"], None, "HolderSub>Holder+extra")
@@ -717,8 +763,8 @@ def main():
     cases = partA_cases(h.thorough) + partB_cases(h.thorough) + partC_cases(h.thorough)
     if h.thorough:
         # seeded extension: random pairs of flat specs in List / Holder positions
-        flat = [s for s in flat_specs(True) if s["cls"] in G.MODEL]
-        for i in range(300):
+        flat = [s for s in flat_specs(True) if s["cls"] in G.MODEL and not any(isinstance(v, Bad) and v.tag == "null" for v in s.get("args", {}).values())]
+        for i in range(1200):
             a, b = h.rng.choice(flat), h.rng.choice(flat)
             which = h.rng.choice(["ListBase", "Holder", "Multi"])
             if which == "ListBase":
@@ -728,6 +774,22 @@ def main():
             else:
                 value = S("Multi", many=[a], either=b)
             cases.append({"part": "A", "decl": which, "value": value, "id": G.short_key(f"A:{which}:{G.label(value)}"), "notations": None})
+        # seeded random 3-4 step class-change sequences
+        chans = ["cfg", "json", "dotted"]
+        for i in range(1200):
+            n = h.rng.choice([3, 4])
+            steps, c = [], None
+            for j in range(n):
+                named = j == 0 or h.rng.random() < 0.75
+                if named:
+                    c = h.rng.choice(FLAT)
+                pool = ARGS1[c] + ARGS2[c] + ([ARGS2_BAD[c]] if h.rng.random() < 0.15 else [])
+                ch = h.rng.choice((["default", "env"] if j == 0 else []) + chans)
+                steps.append(step(ch, c if named else None, h.rng.choice(pool)))
+            if steps[0]["ch"] == "default" and steps[0]["cls"] == "SubReq" and "r" not in steps[0]["args"]:
+                continue
+            lab = "+".join(f"{s['ch']}[{s['cls'] or ''}({','.join(f'{k}={v}' for k, v in s['args'].items())}{';' + ','.join(s['kw']) if s['kw'] else ''})]" for s in steps)
+            cases.append({"part": "B", "decl": "Base", "steps": steps, "id": G.short_key(f"B:Base:{lab}"), "tag": "random"})
     n = G.run_cases(h, cases, worker)
     kinds = {"valid": 0, "invalid": 0, "accepted": 0, "rejected": 0}
     for sig in h.distinct:
@@ -741,7 +803,7 @@ def main():
     bound = ("class family of 13 classes + 4 factories + 11 non-class/unimportable paths; declared types Base, Optional, Union (both orders), abstract base, unrelated, "
              "List, Dict, Holder (1 level), Deep (2 levels), Multi (List/Dict/Union parameters); <= 1 invalid position per configuration (all depths); "
              "2 valid and up to 5 ill-typed values per scalar parameter; <= 10 notations; class changes: all ordered pairs of 6 classes x 2x2 argument sets x 12 channel "
-             "pairs" + (" (every third combination in the quick tier)" if not h.thorough else " + 300 seeded random compositions") + "; 3-step sequences; 23 nested sequences")
+             "pairs" + (" (every fourth combination in the quick tier)" if not h.thorough else " + 1200 seeded random compositions + 1200 seeded random 3-4 step sequences") + "; 3-step sequences; 23 nested sequences")
     sys.exit(h.finish(exhaustive=True, bound=bound))
 
 
